@@ -13,6 +13,9 @@ from refs import predicates as R
 
 PROPERTY = "C17"
 LIN = dict(round="ideal", nl_uf=False, div="assume", timeout_ms=3000, fresh_timeout_ms=30000)
+# the pattern predicates are stated on exact prices: any rounding applied on the way (none on the pinned tree) is modelled
+# as an arbitrary perturbation of up to half a unit of its last digit, so it cannot hide behind the ideal-rounding stub
+PAT = dict(LIN, round="eps")
 PATTERNS = ["doji", "dojistar", "hammer", "inverted_hammer"]
 CLAUSES = {"doji": 1, "dojistar": 3, "hammer": 4, "inverted_hammer": 4}
 
@@ -24,11 +27,11 @@ def obligations(tier):
         obs.append(Ob(f"movement/{name}/N={N}", dict(fn=name, N=N), LIN, fn="run_movement", weight=10, budget_s=900, max_paths=300000))
     obs.append(Ob("geometry", dict(), LIN, fn="run_geometry", weight=1))
     for name in PATTERNS:
-        obs.append(Ob(f"pattern/{name}/witness", dict(fn=name, mode="witness"), LIN, fn="run_pattern", weight=30, budget_s=900))
+        obs.append(Ob(f"pattern/{name}/witness", dict(fn=name, mode="witness"), PAT, fn="run_pattern", weight=30, budget_s=900))
         for k in range(CLAUSES[name]):
-            obs.append(Ob(f"pattern/{name}/break-clause-{k}", dict(fn=name, mode="break", clause=k), LIN, fn="run_pattern", weight=30, budget_s=900))
-        obs.append(Ob(f"pattern/{name}/shift-invariance", dict(fn=name, mode="shift"), LIN, fn="run_invariance", weight=30, budget_s=900))
-        obs.append(Ob(f"pattern/{name}/scale-invariance", dict(fn=name, mode="scale"), dict(LIN, fresh_timeout_ms=120000), fn="run_invariance", weight=60, budget_s=1800))
+            obs.append(Ob(f"pattern/{name}/break-clause-{k}", dict(fn=name, mode="break", clause=k), PAT, fn="run_pattern", weight=30, budget_s=900))
+        obs.append(Ob(f"pattern/{name}/shift-invariance", dict(fn=name, mode="shift"), PAT, fn="run_invariance", weight=30, budget_s=900))
+        obs.append(Ob(f"pattern/{name}/scale-invariance", dict(fn=name, mode="scale"), dict(PAT, fresh_timeout_ms=120000), fn="run_invariance", weight=60, budget_s=1800))
     for name in ("rising", "highestbar", "crossover", "mean_falling", "value_range"):
         obs.append(Ob(f"movement/{name}/shift+scale-invariance", dict(fn=name, N=3), LIN, fn="run_move_invariance", weight=20, budget_s=900))
     return obs
